@@ -30,7 +30,7 @@ import (
 
 var c18mix = []weighted{
 	{"create", 14}, {"delete", 6}, {"pause", 5}, {"readonly", 6}, {"join", 8}, {"leave", 4},
-	{"fail", 10}, {"unfail", 8}, {"sleep", 14}, {"restart", 6}, {"crash", 4}, {"crashfs", 3}, {"stepdown", 5}, {"snap", 6},
+	{"fail", 10}, {"unfail", 8}, {"sleep", 14}, {"restart", 6}, {"crash", 4}, {"crashfs", 3}, {"roact", 5}, {"pauseact", 2}, {"stepdown", 5}, {"snap", 6},
 }
 
 func genC18(r *simrt.Rand, tier string, idx int) *hx.Program {
@@ -117,6 +117,7 @@ func execC18(t *testing.T, prog *hx.Program, dec *simrt.Decider, verbose bool) *
 			return
 		}
 		failing := false
+		activityRO := false
 		h.bus.Fault = func(src *nats.Conn, dst *nats.Subscription, m *nats.Msg) int64 {
 			if failing && strings.Contains(m.Subject, "activity") && !strings.HasPrefix(m.Subject, "_INBOX") {
 				h.s.Count("fault.activity_publish_dropped")
@@ -194,6 +195,23 @@ func execC18(t *testing.T, prog *hx.Program, dec *simrt.Decider, verbose bool) *
 					defer cancel()
 					n.srv.metadata.LeaveConsumerGroup(ctx, &proto.LeaveConsumerGroupOp{GroupId: "g", ConsumerId: fmt.Sprintf("c%d", op.Arg(1, 0)%3)})
 				})
+			case "roact":
+				// the activity stream itself is made read-only (or writable again): publishes to it are
+				// refused with a status, not timed out, until it is writable again
+				ro := op.Arg(1, 0)%3 != 0
+				call("readonly-activity", func(api *apiServer) {
+					ctx, cancel := ctxT(5 * time.Second)
+					defer cancel()
+					if _, err := api.SetStreamReadonly(ctx, &client.SetStreamReadonlyRequest{Name: activityStream, Readonly: ro}); err == nil {
+						activityRO = ro
+					}
+				})
+			case "pauseact":
+				call("pause-activity", func(api *apiServer) {
+					ctx, cancel := ctxT(5 * time.Second)
+					defer cancel()
+					api.PauseStream(ctx, &client.PauseStreamRequest{Name: activityStream})
+				})
 			case "fail":
 				failing = true
 				failures++
@@ -242,6 +260,30 @@ func execC18(t *testing.T, prog *hx.Program, dec *simrt.Decider, verbose bool) *
 		failing = false
 		if !up() {
 			return
+		}
+		// (what counts is the committed metadata, not which of the harness's calls returned: a call may
+		// have been committed although the server died before answering)
+		activityRO = false
+		for _, e := range h.cluster.Log {
+			if e.Type != raft.LogCommand {
+				continue
+			}
+			op := &proto.RaftLog{}
+			if op.Unmarshal(e.Data) == nil && op.Op == proto.Op_SET_STREAM_READONLY && op.SetStreamReadonlyOp.Stream == activityStream {
+				activityRO = op.SetStreamReadonlyOp.Readonly
+			}
+		}
+		if activityRO {
+			var err error
+			h.rpc(n, "writable-activity", func(api *apiServer) {
+				ctx, cancel := ctxT(10 * time.Second)
+				defer cancel()
+				_, err = api.SetStreamReadonly(ctx, &client.SetStreamReadonlyRequest{Name: activityStream, Readonly: false})
+			})
+			if err != nil && len(h.s.Panics) == 0 {
+				h.oc.Trouble = "making the activity stream writable again: " + err.Error()
+				return
+			}
 		}
 		// Operations keep being committed on their own (a consumer group member expires): what is judged is
 		// the committed log up to the index the dispatcher was seen to have caught up with.
